@@ -8,13 +8,15 @@ use std::convert::TryFrom;
 use std::panic::{catch_unwind, AssertUnwindSafe};
 
 /// a message whose header-type byte is `b`: optional fields, extended header and a 4-byte payload as `b` demands
-fn message_with_htyp(b: u8, msin: u8) -> Vec<u8> {
+fn message_with_htyp(b: u8, msin: u8) -> Vec<u8> { message_with_htyp_fill(b, msin, false) }
+/// `zeros`: the optional fields (ECU id, session id, timestamp) are all-zero bytes instead of letters
+fn message_with_htyp_fill(b: u8, msin: u8, zeros: bool) -> Vec<u8> {
     let std = 4 + 4 * ((b >> 2 & 1) + (b >> 3 & 1) + (b >> 4 & 1)) as usize;
     let hdrs = std + if b & 1 == 1 { 10 } else { 0 };
     let len = (hdrs + 4) as u16;
     let mut m = vec![b, 9];
     m.extend(len.to_be_bytes());
-    m.extend((0..std - 4).map(|i| b'a' + i as u8));
+    m.extend((0..std - 4).map(|i| if zeros { 0 } else { b'a' + i as u8 }));
     if b & 1 == 1 {
         m.extend([msin, 0]);
         m.extend(b"APP\0CTX\0");
@@ -22,8 +24,9 @@ fn message_with_htyp(b: u8, msin: u8) -> Vec<u8> {
     m.extend([1, 2, 3, 4]);
     m
 }
-pub fn htyp_event(b: u8) -> J {
-    let bytes = message_with_htyp(b, 0x40);
+pub fn htyp_event(b: u8) -> J { htyp_event_fill(b, false) }
+pub fn htyp_event_fill(b: u8, zeros: bool) -> J {
+    let bytes = message_with_htyp_fill(b, 0x40, zeros);
     let res = match catch_unwind(AssertUnwindSafe(|| dlt_core::parse::dlt_message(&bytes, None, false))) {
         Err(_) => json!({"v": "panic"}),
         Ok(Ok((_, dlt_core::parse::ParsedMessage::Item(m)))) => {
@@ -33,7 +36,20 @@ pub fn htyp_event(b: u8) -> J {
         }
         Ok(_) => json!({"v": "other"}),
     };
-    json!({"op": "htyp", "b": b, "res": res})
+    json!({"op": "htyp", "b": b, "zeros": zeros, "res": res})
+}
+/// the type-info word through the PARSER: a verbose message in one byte order whose single argument starts with these four raw
+/// bytes, immediately followed by a message in the OTHER byte order with the same four raw bytes (so its word is the byte-reversed one)
+pub fn tipair_event(raw: [u8; 4]) -> J {
+    let mk = |be: bool| { let mut m = vec![0x21u8 | if be { 2 } else { 0 }, 0, 0, 14 + 4 + 40, 0x41, 1]; m.extend(b"APP\0CTX\0"); m.extend(raw); m.extend([0u8; 40]); m };
+    let desc = |be: bool| -> J {
+        let r = slice::parse_res(&mk(be), None, false, false);
+        if r["v"] == "msg" { let a = &r["m"]["p"][1][0]; json!({"v": "ok", "desc": {"kind": a["kind"], "w": a["w"], "cod": a["cod"], "vari": a["vari"], "trai": a["trai"]}}) } else { json!({"v": "refused"}) }
+    };
+    let first_be = raw[0] & 1 == 0;
+    let a = desc(first_be);
+    let b = desc(!first_be);
+    json!({"op": "tipair", "raw": proj::bytes(&raw), "first_be": first_be, "a": a, "b": b})
 }
 pub fn msin_event(b: u8) -> J {
     let res = match catch_unwind(AssertUnwindSafe(|| {
@@ -82,9 +98,18 @@ pub fn record(mode: &str, seed: u64, n: usize, out: &mut Out, shard: u32, of: u3
     match mode {
         "bytes" => {
             for b in 0..=255u8 {
-                out.calls += 3;
+                out.calls += 4;
                 out.emit(htyp_event(b), true);
+                out.emit(htyp_event_fill(b, true), true);
                 out.emit(msin_event(b), true);
+            }
+            // type-info words through the parser, alternating byte orders on the same raw bytes (palindromic and not)
+            let mut r = crate::rng::Rng::new(seed);
+            for i in 0..4096u32 {
+                let w: u32 = match i % 4 { 0 => i >> 2, 1 => (i >> 2) << 4 | 3, 2 => r.next() as u32 & 0x3FFFF, _ => (r.next() as u32 & 0xFF) * 0x01000001 | (r.next() as u32 & 0xFF) << 8 | (r.next() as u32 & 0xFF) << 16 };
+                out.calls += 2;
+                out.emit(tipair_event(w.to_be_bytes()), true);
+                out.emit(tipair_event(w.to_le_bytes()), true);
             }
         }
         "ti" => {
@@ -130,7 +155,8 @@ pub fn record(mode: &str, seed: u64, n: usize, out: &mut Out, shard: u32, of: u3
 }
 pub fn rerun(ev: &J) -> J {
     match ev["op"].as_str().unwrap_or("") {
-        "htyp" => htyp_event(ev["b"].as_u64().unwrap() as u8),
+        "htyp" => htyp_event_fill(ev["b"].as_u64().unwrap() as u8, ev["zeros"].as_bool().unwrap_or(false)),
+        "tipair" => { let b = crate::unproj::bytes(&ev["raw"]); tipair_event([b[0], b[1], b[2], b[3]]) }
         "msin" => msin_event(ev["b"].as_u64().unwrap() as u8),
         "ti" => ti_event(crate::unproj::u32_of(&ev["w"])),
         _ => json!({"op": "unknown"}),
